@@ -224,6 +224,9 @@ func (g *Gen) actorsAct() {
 	if g.stretch {
 		g.stretchAct()
 	}
+	if g.whale && g.chance(0.15) {
+		g.whaleAct()
+	}
 	// providers watch for requests every block
 	g.providersAct()
 }
@@ -1089,6 +1092,38 @@ func (g *Gen) stretchAct() {
 					}
 					g.x.stats.inc("probe_stretch_pause_start_cycles")
 				}
+				break
+			}
+		}
+	}
+}
+
+// whaleAct: an owner with a balance beyond 2^63 binds with deposits of 10^19 and more and tops them up; requests to
+// those bindings are left to expire or answered badly, so that slashing computes on amounts that do not fit 64 bits.
+func (g *Gen) whaleAct() {
+	svcs := g.definedSvcs()
+	if len(svcs) == 0 {
+		return
+	}
+	w := g.cfg.WhaleAccount
+	svc := pickStr(g, svcs)
+	prov := acctRef(pickInt(g, g.providers))
+	g.x.stats.inc("probe_whale_action")
+	switch g.pick(4) {
+	case 0, 1:
+		g.submit(g.tx(w, MsgOp{T: "bind", Svc: svc, Prov: prov, Deposit: pickStr(g, []string{"10000000000000000000stake", "9223372036854775808stake", "36893488147419103232stake"}), Pricing: `{"price":"1stake"}`, QoS: 1, Options: "{}"}), 0)
+	case 2:
+		for _, b := range g.allBindings() {
+			if bytes.Equal(b.Owner, acctAddr(w)) {
+				g.submit(g.tx(w, MsgOp{T: "update", Svc: b.ServiceName, Prov: refOfAddr(g, b.Provider), Deposit: "9223372036854775807stake", Options: "{}"}), 0)
+				break
+			}
+		}
+	case 3:
+		// a consumer calls the whale's bindings (nobody may answer: expiry slashes)
+		for _, b := range g.allBindings() {
+			if bytes.Equal(b.Owner, acctAddr(w)) && b.Available {
+				g.submit(g.tx(pickInt(g, g.consumers), MsgOp{T: "call", Svc: b.ServiceName, Providers: []string{refOfAddr(g, b.Provider)}, Input: goodInput, FeeCap: "5stake", Timeout: 1, Repeated: true, Freq: 1, Total: 3}), 0)
 				break
 			}
 		}
